@@ -9,14 +9,15 @@ CLAIMS = {
                      "guard-participation of verify() and of the id-vs-hash comparison, who-may-call ownership",
         "text": TXT + "Decides: validator gate dominates every store/enqueue/broadcast/ack in both backends; the chain "
                 "cannot skip or swallow a validator; defaults contain is_signed; is_signed is fail-closed; the "
-                "client-supplied id is compared with the recomputed hash; closed world of admission.",
+                "client-supplied id is compared with the recomputed hash; what is stored is the verified object's own fields (reversible codecs "
+                "only); closed world of admission.",
         "not_decided": "cryptographic correctness of aionostr/coincurve; NIP-26 condition strings.",
     },
     "C14": {
         "technique": "CFG must-pass-through on guard edges (can_do truthy before every admission effect / subscription start; "
                      "check_output truthy-or-unset before every delivery site), who-may-call, fail-closed lint of can_do",
         "text": TXT + "Decides: save gate in both backends, query gate in subscribe, output validator on every stored, live and HTTP "
-                "delivery site, can_do decision structure and seeded actions.",
+                "delivery site, can_do decision structure and seeded actions, replace-on-conflict idiom of the role store.",
         "not_decided": "role read-back equals last write; the configuration matrix as behaviour; operator plug-in classes.",
     },
     "C16": {
@@ -39,8 +40,9 @@ CLAIMS = {
         "technique": "path counting over the acyclic CFG slice of the EVENT branch (exactly one OK frame), definite-assignment, value "
                      "provenance of the acknowledgement status, control-dependence of the broadcast, derived writer-side obligations",
         "text": TXT + "Decides: exactly one OK per EVENT on every path incl. the rate-limited branch; OK operands definitely assigned; OK=true "
-                "only from the INSERT's rowcount inside the transaction and returned after commit; broadcast after commit iff new; LMDB "
-                "fixed-width conversions guarded before the acknowledged enqueue.",
+                "only from the INSERT's rowcount inside the transaction and returned after commit; broadcast after commit iff new; OK=false "
+                "leaves no trace because all writes share one transaction; the LMDB duplicate test is read from the store; LMDB fixed-width "
+                "conversions guarded before the acknowledged enqueue.",
         "not_decided": "'retrievable thereafter' end-to-end; absence of value-dependent faults in pre_save/process_tags for all well-formed events.",
     },
     "C15": {
